@@ -7,6 +7,7 @@ import (
 	"go/token"
 	"math/big"
 	"os"
+	"sync"
 	"go/types"
 	"sort"
 	"strings"
@@ -45,6 +46,8 @@ type Obligation struct {
 	Cover    bool // cover query: expected sat
 	file     string
 	replayed bool
+	subs     []*Obligation
+	triedSubs bool
 }
 
 type loopInfo struct {
@@ -96,6 +99,10 @@ type FnEnc struct {
 	err       error
 	oblNames  map[string]int
 	skipPkgInv bool
+	modAllowed map[string]func(string, string) string
+	modAllowedDone bool
+	symCache  map[int][]string
+	pruneMu   sync.Mutex
 	loopPre   map[*loopInfo]*State
 	exitState *State
 	specHeapUse []map[string]bool
